@@ -1,5 +1,6 @@
 import BM.Props.C07
 import BM.Props.C07b
+import BM.Props.C07c
 import BM.Props.SrcPin.C07
 /- Top module of property C07: its theorems (BM.Props.C07) and the statement of which units of /repo's
    source its model and proofs were written against (BM/Props/SrcPin/C07.lean, re-checked against the
